@@ -871,3 +871,5 @@ PROPS["C15"]["level_note"] = PROPS["C15"]["level_note"].replace(
     "Known finding: BlsCache::aggregate_verify accepts pair lists containing the infinity key (repo_fix_c15.patch); ",
     "Former finding (fixed in 601e785b): BlsCache::aggregate_verify accepted pair lists containing the infinity key; ")
 PROPS["C15"]["rule"] = PROPS["C15"]["rule"].replace("so that the known finding cannot hide another disagreement", "kept from the time of the (repaired) infinity-key finding: a second, masked view of the same histories")
+
+PROPS["C09"]["open"] = [o.replace("get_coinspends_with_conditions_for_trusted_block is not modelled (same recovery loop plus a condition listing)", "get_coinspends_with_conditions_for_trusted_block is not modelled in Lean (same recovery loop plus a condition listing); it is covered by the correspondence: on every accepted block its coin spends must equal those of get_coinspends_for_trusted_block and its listed CREATE_COIN entries must be the created coins of the validated spend (field withconds=)") for o in PROPS["C09"]["open"]]
